@@ -2354,7 +2354,13 @@ def elem_getattr(interp, v: ElemV, attr, node):
         if attr == "weak":
             return Sym(("weak", v.var), "bool")
         if attr == "index":
-            return ElemV(v.var, "key", v.fam)
+            # a conditional's `index` attribute (None after parsing, whatever a revision workflow wrote into it otherwise) is
+            # unrelated to the key it is stored under in a belief base; rules about revision conditionals, which are
+            # identified by their index, set `interp.index_is_key`
+            if getattr(interp, "index_is_key", False):
+                return ElemV(v.var, "key", v.fam)
+            interp.log("cond.index", node, obj=v)
+            return Sym(("condindex", v.var), "optint")
         cls = v.cls or COND_CLASS
         m = interp.prog.lookup_method(cls, attr)
         if m is not None:
